@@ -13,6 +13,10 @@ func init() { props["C11"] = checkC11 }
 
 func checkC11(c *Ctx) {
 	c.Decides("GO-WG: every worker goroutine whose launcher does wg.Add signals wg.Done on every exit path (CFG must-pass-through); GO-CLOSE: every result channel that is ranged over or returned is closed by a goroutine on all of its paths, after wg.Wait when workers send on it; GO-NILCHAN: no receive/range on a local channel variable that is still nil on some path; GO-WRITE: inside a goroutine that has several live instances, every store goes to an object the instance owns (declared in it / received from a channel), to a slot indexed by such an object's id, under a mutex, or through sync/atomic — directly or through repository callees (bottom-up write summaries)")
+	c.Decides("RANGE-CLOSED / WG-WAITED: in the threaded computations a channel created in a function and ranged over by a goroutine is closed in that function, and every WaitGroup that is Add-ed to is waited on afterwards")
+	if n := c.rangeClosedAndWaited("RANGE-CLOSED", []*FuncInfo{c.Func("tree", "", "Compare"), c.Func("tree", "", "CompareWeighted"), c.Func("support", "", "FBP"), c.Func("support", "", "TBE")}, "no deadlock"); n < 4 {
+		c.Undecided("RANGE-CLOSED", "scan", 0, fmt.Sprintf("only %d channels ranged over / wait groups seen in the four computations", n))
+	}
 	c.Decides("CHUNK-REMAINDER: a function of the threaded computations that cuts its work into pieces of len(x)/n elements deals with the remainder; NIL-ON-ERR: in Compare, CompareWeighted, FBP and TBE the Tree of a received item is touched only where its Err is known to be nil (a malformed tree reaches the caller as an error, not as a crash of a worker)")
 	{
 		fs := append(c.AllFuncs("support"), c.funcsInFiles("tree/algo.go")...)
